@@ -276,7 +276,7 @@ class HammingCodeEncoder(SystematicLinearBlockCodeEncoder):
 
         # Extract information bits
         decoded = y_reshaped[..., self.information_set]
-        decoded = decoded.reshape(*original_dims, self.code_dimension)
+        decoded = decoded.reshape(*original_dims, -1)
 
         return decoded, syndrome
 
